@@ -112,7 +112,7 @@ def _arena_h():
     import os as _os
     here = _os.path.dirname(_os.path.dirname(_os.path.abspath(__file__)))
     out = []
-    for f in ("h_arena", "h_realloc", "h_scope"):
+    for f in ("h_arena", "h_realloc", "h_scope", "h_typed"):
         pth = _os.path.join(here, "kani", "incrate", f + ".rs")
         if not _os.path.exists(pth):
             continue
@@ -179,6 +179,15 @@ _OB = {
                        "layout size<=300, align<=64, upward"),
     "ob_unallocated_drop": (["C05", "C07"], ["raw_bump::RawBump::{alloc,reserve,make_allocated,manually_drop}"],
                             "refused first chunk: Err, arena stays unallocated; dropping releases nothing", "downward, MIN_ALIGN 4"),
+    "ob_claim_unallocated": (["C14"], ["raw_bump::RawBump::{new,claim,reclaim,is_claimed}"],
+                             "claiming an unallocated arena: guard holds the unallocated state, original fails; after reclaim the original is unclaimed, continues at the guard's (still unallocated) state and can be claimed again",
+                             "loop-free; ZST base allocator"),
+    "ob_entry_pair": (["C17", "C10"], ["raw_bump::RawBump::{alloc,alloc_sized,alloc_slice,alloc_slice_for}", "allocator_impl::allocate", "traits::BumpAllocatorTyped::{try_allocate_layout,try_allocate_sized} (BumpScope, dyn BumpAllocatorCore)", "Allocator::allocate for BumpScope / &BumpScope / WithoutDealloc / WithoutShrink<WithoutDealloc> / dyn BumpAllocatorCore", "traits::BumpAllocatorTypedScope::{try_alloc,alloc,try_alloc_slice_copy}", "layout::{SizedLayout,ArrayLayout,CustomLayout}"],
+                      "relational: from the same arbitrary state the entry point yields the same success/failure, the same block address, the same new position and current chunk as RawBump::alloc with the layout it stands for; value-level results (stored value / copied slice) equal; wf",
+                      "one chunk of 112 bytes (one instantiation: 48+112), T=[u16;3] / u32 x n<=5 / symbolic layout <=24 bytes, base allocator refuses new chunks"),
+    "ob_prepared_slice": (["C15", "C01", "C10"], ["traits::BumpAllocatorTyped::{try_prepare_slice_allocation,allocate_prepared_slice,try_prepare_slice_allocation_rev,allocate_prepared_slice_rev} (BumpScope)", "traits::BumpAllocatorCore::{prepare_allocation,allocate_prepared,prepare_allocation_rev,allocate_prepared_rev} (BumpScope)", "raw_bump::RawBump::{prepare_slice_allocation,prepare_slice_allocation_rev,prepare_allocation_range}"],
+                          "prepare and filling change no header field; capacity >= requested, range inside the free part; commit yields exactly len elements equal to the pushed ones (in order; reversed pushing for _rev), block inside the prepared range at its bump-side end, position = end/start of the block aligned to MIN_ALIGN, advance < size + padding; wf",
+                          "one chunk of 48 bytes, T=u16, cap request <=3, len<=cap"),
     "ob_second_claim_panics": (["C14"], ["raw_bump::RawBump::claim"], "a second claim does not return (panics)", "should_panic harness"),
     "ob_claim_guard": (["C14", "C10"], ["bump_claim_guard::BumpClaimGuard::{new,deref,deref_mut,drop}", "traits::BumpAllocatorScope::claim"],
                        "while the guard lives the original is claimed and fails; allocations through the guard stay live; a scope opened through the guard is fully undone; after drop the original is unclaimed and continues on a real chunk; wf",
@@ -196,6 +205,31 @@ for (_f, _name, _gen, _args) in _arena_h():
     _thorough = (_f == "h_realloc" and (_name.endswith("_k2") or _name.endswith("_128"))) or _name in _THOROUGH
     k("%s::%s" % (_f, _name), _props, _fns, "B", _text, tier=("thorough" if _thorough else "quick"), bound=_bound,
       timeout=(2400 if _thorough else 900), inst=_args)
+
+# ----------------------------------------------------------------------------- collections over fixed buffers (h_coll.rs)
+_CB = "len<=4 (drop counting: len<=3), capacity 5, element type u8 / drop-counting token, fixed local buffer"
+for _n, _p, _fns, _t in [
+    ("vec_remove_pop_truncate", ["C08"], ["bump_box::BumpBox<[T]>::{remove,swap_remove,pop,truncate,clear}"], "same return value, length and contents as std::vec::Vec for every in-range index"),
+    ("vec_retain_dedup", ["C08"], ["bump_box::BumpBox<[T]>::{retain,dedup,dedup_by}"], "same contents as Vec::retain / Vec::dedup"),
+    ("vec_drain", ["C08"], ["bump_box::BumpBox<[T]>::drain", "owned_slice::drain::Drain::{next,next_back,drop}"], "yields the same elements from either end as Vec::drain and leaves the same rest, for every range"),
+    ("fixed_vec_push_insert_extend", ["C08", "C07"], ["fixed_bump_vec::FixedBumpVec::{try_push,try_insert,try_extend_from_slice_copy,try_resize,capacity,len}"], "same contents as Vec after push/insert/extend/resize within capacity; capacity >= len; buffer address and capacity never change"),
+    ("fixed_vec_full_fails", ["C08", "C07"], ["fixed_bump_vec::FixedBumpVec::{try_push,try_insert,try_extend_from_slice_copy,try_resize,is_full}"], "a full fixed vector reports an error for every growing operation and keeps length and contents"),
+    ("zst_capacity_unlimited", ["C08"], ["fixed_bump_vec::FixedBumpVec::<()>::{new,capacity,try_push,pop}"], "zero-sized elements: capacity usize::MAX"),
+    ("split_at_first_last", ["C16"], ["bump_box::BumpBox<[T]>::{split_at,split_first,split_last}"], "parts adjacent, in order, lengths add up, elements in order; None only when empty"),
+    ("merge_restores_whole", ["C16"], ["bump_box::BumpBox<[T]>::merge", "bump_box::BumpBox<[T]>::split_at"], "merge of the two adjacent parts of split_at is the original slice (address, length, every element)"),
+    ("merge_non_adjacent_panics", ["C16"], ["bump_box::BumpBox<[T]>::merge"], "merging non-adjacent parts never returns (must-not-reach cover unsatisfiable; panics)"),
+    ("split_off_first_last_and_spare", ["C16"], ["bump_box::BumpBox<[T]>::{split_off_first,split_off_last}", "fixed_bump_vec::FixedBumpVec::split_at_spare"], "element + rest partition the slice in order; split_at_spare: initialized part and spare capacity adjacent, lengths add up to the capacity"),
+    ("drops_clear", ["C06"], ["bump_box::BumpBox<[T]>::clear", "Drop for BumpBox"], "every element dropped exactly once"),
+    ("drops_truncate", ["C06"], ["bump_box::BumpBox<[T]>::truncate"], "every element dropped exactly once"),
+    ("drops_remove", ["C06"], ["bump_box::BumpBox<[T]>::remove"], "removed value not dropped until the caller drops it; every element dropped exactly once"),
+    ("drops_swap_remove", ["C06"], ["bump_box::BumpBox<[T]>::swap_remove"], "every element dropped exactly once"),
+    ("drops_pop", ["C06"], ["bump_box::BumpBox<[T]>::pop"], "every element dropped exactly once"),
+    ("drops_retain", ["C06"], ["bump_box::BumpBox<[T]>::retain"], "every element dropped exactly once"),
+    ("drops_drain", ["C06"], ["bump_box::BumpBox<[T]>::drain", "owned_slice::drain::Drain"], "partially consumed drain: every element dropped exactly once"),
+    ("leak_routes_skip_drop", ["C06"], ["bump_box::BumpBox::{leak,into_raw}"], "the explicit leak routes drop nothing"),
+    ("into_iter_drops_rest", ["C06"], ["owned_slice::into_iter::IntoIter::{next,next_back,drop}"], "partially consumed IntoIter (both ends): every element dropped exactly once"),
+]:
+    k("h_coll::" + _n, _p, _fns, "B", _t, bound=_CB, timeout=900)
 
 
 def for_property(pid, tier):
